@@ -75,7 +75,13 @@ type Poison struct {
 	why string
 }
 
+type guardInfo struct {
+	mu   *Val
+	name string
+}
+
 type Map struct {
+	guard *guardInfo
 	kt    types.Type
 	keys  []Val
 	vals  []Val
